@@ -111,6 +111,13 @@ def cases(rng, tier, Case):
             doc = d1 + "\n" + d2 + "\n\n" + use + "\n\n" + d2
         doc = mdgen.clean_utf8(doc)
         res.append(Case("parse Cs 100 TR %s" % hx(doc), "resolve-" + place, {"dl": dl, "ul": ul, "form": form, "src": hx(doc), "dl2": dl2 if place == "both" else None}))
+    # destinations and titles in every spelling (seed C13-11: an escape before a non-ASCII character inside <...>): the
+    # definition must be taken (no output of its own) and the use must resolve
+    for dest in ("<docs\\été 2024.md>", "</p\\é>", "/p\\é", "<\\日本>", "<a b>", "<a\\>b>", "<\\<a>", "/a\\(b", "<é\\ü\\ß>", "<>", "<\\\\é>", "/x&amp;\\é", "<𝄞\\𝄞>"):
+        for title in ("", " 'T'", " \"t\\é\"", "\n'T'", " (t\\)é)"):
+            for use in ("[doc]", "[t][doc]", "![doc]"):
+                for doc in ("[doc]: %s%s\n\n%s" % (dest, title, use), "%s\n\n> [doc]: %s%s" % (use, dest, title)):
+                    res.append(Case("parse Cs 100 TR %s" % hx(doc), "resolve-dest", {"must": 1, "src": hx(doc), "dl": "doc", "ul": "doc", "form": "x", "dl2": None}))
     # long labels: the limit is 999 characters, not bytes (seed C13-10)
     for ch, up, cnt in (("я", "Я", 500), ("я", "Я", 998), ("é", "É", 700), ("a", "A", 999), ("日", "日", 400), ("ß", "SS", 499), ("𝄞", "𝄞", 300), ("σ", "Σ", 512)):
         for form in ("shortcut", "full"):
@@ -187,6 +194,14 @@ def oracle(case, io, mo):
             return "[foo] does not resolve to the only well-formed definition (/real): %r" % [text_arg(l, 0) for l in links]
         return None
     dl, ul = p["dl"], p["ul"]
+    if p.get("must"):
+        from parsecommon import strip_tags_text
+        html = unhx(f["html"])
+        if not any(n.kind in ("Link", "Image") for n in nodes):
+            return "the use of [doc] does not resolve although a definition with this label stands in the document"
+        if b"[doc]:" in strip_tags_text(html):
+            return "the definition of [doc] was not accepted as a definition (its text shows up in the output)"
+        return None
     if not (stable(dl) and stable(ul)):
         return None
     # labels with line breaks inside: the definition label may legitimately fail to parse as one label; only judge when a definition was consumed
